@@ -273,7 +273,7 @@ func runCheck(prop, tier string, jobFilter string, workers int, seed int64) int 
 					nu++
 				}
 			}
-			fmt.Printf("[%s] %-40s paths=%d obligations=%d discharged=%d violated=%d unknown=%d incon=%d %.1fs\n", prop, j.Name, r.Paths, len(r.Obligations), nd, nv, nu, len(r.Incon), r.Wall)
+			fmt.Printf("[%s] %-40s paths=%d obligations=%d discharged=%d violated=%d unknown=%d incon=%d %.1fs %s\n", prop, j.Name, r.Paths, len(r.Obligations), nd, nv, nu, len(r.Incon), r.Wall, r.Stats)
 		}(i, j)
 	}
 	wg.Wait()
